@@ -39,5 +39,6 @@ func RunAll(w *load.World, c *core.Collector) {
 	Sortable(w, c)
 	Layout(w, c)
 	BitPack(w, c)
+	Coverage(w, c)
 	Asm(w, c)
 }
